@@ -302,6 +302,29 @@ pub fn search(seed: u64, n: u64) {
             check_line(&mut stats, &g, &edges, &refs, line, "plain_path", cls, &detail);
         }
     }
+    // a symmetric arch (its cubic-coefficient vector w4 - 3 w3 + 3 w2 - w1 is horizontal) cut just below its top by an almost horizontal line:
+    // a cap 0.01 .. 0.04 deep, crossed at about 0.01 .. 0.02 rad - the cubic term of the distance polynomial is small against the others but
+    // not against the depth of the cap (own stream)
+    let mut rng_a = Rng(seed ^ 0xA2C4C14);
+    for _ in 0..(6 + n / 50) {
+        let (wd, ht) = (rng_a.r(300.0, 500.0), rng_a.r(100.0, 200.0));
+        let inset = wd * rng_a.r(0.2, 0.3);
+        let (x0, y0) = (rng_a.r(0.0, 50.0), rng_a.r(0.0, 20.0));
+        let arch: P = (Coord2(x0, y0), vec![(Coord2(x0 + inset, y0 + ht), Coord2(x0 + wd - inset, y0 + ht), Coord2(x0 + wd, y0)),
+            { let (a, b) = (Coord2(x0 + wd, y0), Coord2(x0, y0)); (a + (b - a) * (1.0 / 3.0), a + (b - a) * (2.0 / 3.0), b) }]);
+        let top = y0 + ht * 0.75;
+        let depth = rng_a.r(0.01, 0.04);
+        let rise = rng_a.r(0.3, 1.5) * if rng_a.b() { 1.0 } else { -1.0 };
+        let mid = Coord2(x0 + wd * 0.5, top - depth);
+        let line = (Coord2(mid.0 - 250.0, mid.1 - rise * 0.5), Coord2(mid.0 + 250.0, mid.1 + rise * 0.5));
+        let g = GraphPath::from_path(&arch, PathLabel(0));
+        let detail_owner = format!("graph=from_path({:?})", arch);
+        let detail = || detail_owner.clone();
+        stats.case(&format!("shallow_arch_cap {:?} {}", line, detail()), true);
+        stats.count("graph.shallow_arch_cap");
+        let (edges, refs) = edges_of(&g);
+        check_line(&mut stats, &g, &edges, &refs, line, "plain_path", "shallow_arch_cap", &detail);
+    }
     for it in 0..n {
         if it % 5 == 4 {
             let (a, b) = nearly_coincident_pair(&mut rng, it % 25 == 4);
